@@ -19,7 +19,7 @@ import (
 func init() {
 	register(&Check{
 		ID: "C19", Level: "model_checking", QuickSecs: 170, ThoroughSecs: 1500,
-		Rule:        "Nondeterminism explorer over Go map iteration order: pigeon is built with an overlay in which every range statement over a map in packages ast and builder (type-directed rewrite, 24 sites) iterates in a harness-chosen order. Default = sorted at every dynamic site; a deviation = any other order at one dynamic site (all n! permutations for maps of <= 4 keys, the n rotations and the reversal above). Grammars: every pair of rules with bodies alt1 / alt2 over {A, B, A 'a', B 'a', A B 'z', B A 'z', \"\", 'a'} and a slice of the triples over 5 alternatives (thorough: all) that have at least one first-call cycle, with -support-left-recursion and with -support-left-recursion -optimize-grammar, plus an independent components family (a mutually left-recursive pair next to directly left-recursive rules / a second pair, every rotation of the definition order); late-nullable choice family (R <- X / P D: X nullable only through the fixpoint, P a nullable prefix with a cached flag - rule reference, choice, sequence, action - and D closing a cycle through R only behind P; 144 grammars); optimizer family (leaf rules referenced from several places; dead rules referring to several live and dead rules) with -optimize-grammar. Every execution with <= 1 deviation is run (<= 2 deviations for grammars with <= 10 dynamic sites): the outcome (error text | per-rule nullable/leftRecursive/leader flags and optimised AST; emitted bytes once per distinct analysis outcome, after checking that no map site fires during emission) must be identical for every order. History independence: every ordered pair and triple over 6 (grammar, flags) requests sent to one fresh server process must give, for each request, the answer the same request gets alone in a fresh process. Binding: the uninstrumented pigeon binary is run repeatedly; its output must equal the sorted-order outcome, and an order dependence found by the explorer is re-observed on it.",
+		Rule:        "Nondeterminism explorer over Go map iteration order: pigeon is built with an overlay in which every range statement over a map in packages ast and builder (type-directed rewrite, 24 sites) iterates in a harness-chosen order. Default = sorted at every dynamic site; a deviation = any other order at one dynamic site (all n! permutations for maps of <= 4 keys, the n rotations and the reversal above). Grammars: every pair of rules with bodies alt1 / alt2 over {A, B, A 'a', B 'a', A B 'z', B A 'z', \"\", 'a'} and a slice of the triples over 5 alternatives (thorough: all) that have at least one first-call cycle, with -support-left-recursion and with -support-left-recursion -optimize-grammar, plus an independent components family (a mutually left-recursive pair next to directly left-recursive rules / a second pair, every rotation of the definition order); late-nullable choice family (R <- X / P D: X nullable only through the fixpoint, P a nullable prefix with a cached flag - rule reference, choice, sequence, action - and D closing a cycle through R only behind P; 144 grammars); optimizer family (leaf rules referenced from several places; dead rules referring to several live and dead rules) with -optimize-grammar. Every execution with <= 1 deviation is run (<= 2 deviations for grammars with <= 10 dynamic sites): the outcome (error text | per-rule nullable/leftRecursive/leader flags and optimised AST; emitted bytes once per distinct analysis outcome, after checking that no map site fires during emission) must be identical for every order. History independence: every ordered pair and triple over 6 (grammar, flags) requests sent to one fresh server process must give, for each request, the answer the same request gets alone in a fresh process. Binding: the uninstrumented pigeon binary is run repeatedly; its output must equal the sorted-order outcome, and an order dependence found by the explorer is re-observed on it. Plus an emission family (two rich grammars under all 32 flag combinations incl. -nolint; every cross body of <= 2 nodes under 16): when a map is consulted during emission the emitted bytes are compared for every explored order.",
 		Assumptions: []string{"every permutation of a map's keys is a legal iteration order of the real implementation", "the rewrite keeps Go's semantics (entries deleted during the loop are skipped; entries added are not visited, which Go permits)"},
 		Run:         runC19,
 	})
